@@ -102,3 +102,92 @@ package tree
 //@ func (*tree.Tree).Newick
 //@   requires t != nil
 //@   assigns nothing
+
+//@ func (*tree.Tree).Edges
+//@   requires t != nil
+//@   allocates []*Edge
+//@   assigns nothing
+//@   ensures [elements_are_branches_with_both_ends] forall k int :: 0 <= k && k < len(result) ==> result[k] != nil && result[k].right != nil && result[k].left != nil
+//@   ensures [fresh_storage] fresh_arr(result)
+
+//@ func (*tree.Tree).ReinitIndexes
+//@   requires t != nil
+//@   allocates map[string]*Node, bitset.BitSet, []*Node, []string, iface
+//@   assigns t.tipIndex, Node.tipid, Node.depth, Edge.bitset, Edge.hashcodeleft, Edge.hashcoderight, Edge.ntaxleft, Edge.ntaxright
+
+//@ func (*tree.Tree).CompareTipIndexes
+//@   requires t != nil && t2 != nil
+//@   allocates iface, []*Node
+//@   assigns nothing
+
+//@ func (*tree.EdgeIndex).Value
+//@   requires em != nil && e != nil
+//@   assigns ghost(lock_RLock), ghost(lock_RUnlock)
+//@   ensures [info_when_found] result1 ==> result0 != nil
+
+// ---------------------------------------------------------------------------
+// Tree comparison (properties C08, C11): the worker closure of Compare
+// One received tree -> exactly one record sent; counts and identity verdict
+// ---------------------------------------------------------------------------
+
+//@ func tree.Compare$1
+//@   flag worker
+//@   flag noframe
+//@   requires compTrees != nil && stats != nil && refTree != nil && index != nil && !closed(stats)
+//@   recv compTrees [message_is_a_tree_or_an_error] msg.Err == nil ==> msg.Tree != nil
+//@   ensures [done_on_every_path] ghost(wg_done) == old(ghost(wg_done)) + 1
+//@   call (*tree.EdgeIndex).Value [only_after_successful_taxon_check] inerr == nil
+//@   send stats [error_of_the_input_tree_reaches_the_caller] treeV.Err != nil ==> msg.Err != nil
+//@   send stats [record_carries_the_tree_identifier] msg.Id == treeV.Id
+//@   send stats [identical_implies_no_specific_branch] msg.Err == nil && msg.Sametree ==> msg.Tree1 == 0 && msg.Tree2 == 0
+//@   send stats [no_specific_branch_implies_identical] msg.Err == nil && !comparetreeidentical && msg.Tree1 == 0 && msg.Tree2 == 0 ==> msg.Sametree
+//@   send stats [counts_add_up] msg.Err == nil && !comparetreeidentical ==> msg.Tree1 + msg.Common == total && msg.Tree2 >= 0 && msg.Common >= 0
+//@   loop 1
+//@     invariant [one_record_per_received_tree] ghost(ch_sent) == ghost(ch_recv) + lold(ghost(ch_sent)) - lold(ghost(ch_recv))
+//@     invariant [captured_unchanged] compTrees == lold(compTrees) && stats == lold(stats) && refTree == lold(refTree) && index == lold(index)
+//@     invariant [result_channel_open] !closed(stats)
+//@   loop 2
+//@     invariant [common_bounded] 0 <= common && common <= total2
+//@     invariant [identical_so_far_iff_all_found] sametree <==> common == total2
+
+//@ func tree.Compare$2
+//@   flag noframe
+//@   requires stats != nil && !closed(stats)
+//@   ensures [closed_exactly_once] closed(stats)
+//@   ensures [closes_after_waiting] ghost(wg_wait) == old(ghost(wg_wait)) + 1 && ghost(ch_closed) == old(ghost(ch_closed)) + 1
+
+//@ func (*tree.EdgeIndex).PutEdgeValue
+//@   requires em != nil && e != nil
+//@   allocates EdgeIndexInfo, hashmap.KeyValue, []hashmap.Bucket, []*hashmap.KeyValue, iface
+//@   assigns hashmap.HashMap.mapArray, hashmap.HashMap.capacity, hashmap.HashMap.total, elems("hashmap.Bucket"), elems("*hashmap.KeyValue"), hashmap.KeyValue.Value, ghost(lock_Lock), ghost(lock_Unlock)
+
+// The worker closure of CompareWeighted (properties C08, C11)
+//@ func tree.CompareWeighted$1
+//@   flag worker
+//@   flag noframe
+//@   requires compTrees != nil && stats != nil && refTree != nil && refIndex != nil && !closed(stats)
+//@   requires forall k int :: 0 <= k && k < len(refEdges) ==> refEdges[k] != nil && refEdges[k].right != nil
+//@   recv compTrees [message_is_a_tree_or_an_error] msg.Err == nil ==> msg.Tree != nil
+//@   ensures [done_on_every_path] ghost(wg_done) == old(ghost(wg_done)) + 1
+//@   call (*tree.EdgeIndex).Value [only_after_successful_taxon_check] inerr == nil
+//@   send stats [error_of_the_input_tree_reaches_the_caller] treeV.Err != nil ==> msg.Err != nil
+//@   send stats [record_carries_the_tree_identifier] msg.Id == treeV.Id
+//@   send stats [identical_implies_no_specific_branch] msg.Err == nil && msg.Sametree ==> len(msg.Tree1) == 0 && len(msg.Tree2) == 0
+//@   loop 1
+//@     invariant [one_record_per_received_tree] ghost(ch_sent) == ghost(ch_recv) + lold(ghost(ch_sent)) - lold(ghost(ch_recv))
+//@     invariant [captured_unchanged] compTrees == lold(compTrees) && stats == lold(stats) && refTree == lold(refTree) && refIndex == lold(refIndex) && refEdges == lold(refEdges)
+//@     invariant [reference_branches_intact] forall k int :: 0 <= k && k < len(refEdges) ==> refEdges[k] != nil && refEdges[k].right != nil
+//@     invariant [result_channel_open] !closed(stats)
+//@   loop 2
+//@     invariant [compared_branches_intact] forall k int :: 0 <= k && k < len(compEdges) ==> compEdges[k] != nil && compEdges[k].right != nil
+//@     invariant [reference_branches_intact] forall k int :: 0 <= k && k < len(refEdges) ==> refEdges[k] != nil && refEdges[k].right != nil
+//@   loop 3
+//@     invariant [identical_so_far_implies_nothing_specific] sametree ==> len(Comp) == 0
+//@   loop 4
+//@     invariant [identical_so_far_implies_nothing_specific] sametree ==> len(Comp) == 0 && len(Ref) == 0
+
+//@ func tree.CompareWeighted$2
+//@   flag noframe
+//@   requires stats != nil && !closed(stats)
+//@   ensures [closed_exactly_once] closed(stats)
+//@   ensures [closes_after_waiting] ghost(wg_wait) == old(ghost(wg_wait)) + 1 && ghost(ch_closed) == old(ghost(ch_closed)) + 1
